@@ -209,13 +209,14 @@ CLAIMED["C13"]["technique"] += "; rejection witnesses for the Collect-implementi
 CLAIMED["C18"]["technique"] += "; variance rule (compiler's variances_of): every builder is invariant in its value type; drop-order rule on builder types"
 CLAIMED["C19"]["technique"] += "; trait rule: traits whose results the library dereferences unchecked are unsafe traits; Gc values are built only from carrier constructors"
 
+CLAIMED["C09"]["technique"] += "; protocol rule: no debt-driven exit between the last sweep step and the roll-over (stop-the-world clause)"
 CLAIMED["C14"]["technique"] += "; call-graph rule: no function of the handle type reaches a reference-forming block accessor"
 CLAIMED["C15"]["technique"] += "; rejection witnesses for option strings that are more than a where clause"
 CLAIMED["C17"]["technique"] += "; variance rule (compiler's variances_of): builders invariant in the metadata strategy parameters"
 CLAIMED["C04"]["technique"] += "; unwind rows: the block of a value whose destructor unwinds is released or still linked"
 
 NOTES += (" Repairs of genuine defects in /repo (unguarded `fix:` commits, each minimal, the unedited suite passes with each): "
-          "cddd983, 96d609a, f123ef0, 4330406, 91603c3, 40fcb09, 1f3a763, fa7262c, de7ddba, cf49bbc, 5ee669b, 44f0b73, 00061de, e98c550, 45c243b; "
-          "see known_findings.json (sixteen `fixed:` entries; one open finding, F11 under C12, reported as a KNOWN-FINDING line with exit 0) "
+          "cddd983, 96d609a, f123ef0, 4330406, 91603c3, 40fcb09, 1f3a763, fa7262c, de7ddba, cf49bbc, 5ee669b, 44f0b73, 00061de, e98c550, 45c243b, 3d82973; "
+          "see known_findings.json (seventeen `fixed:` entries; one open finding, F11 under C12, reported as a KNOWN-FINDING line with exit 0) "
           "and DESIGN.md section 5. Defects reported by independent reviewers in clauses no check decides (C09 / C10 numeric clauses) are "
           "listed in DESIGN.md section 10.2 and are neither claimed nor suppressed.")
